@@ -7,7 +7,9 @@ import (
 	"go/ast"
 	"go/token"
 	"go/types"
+	"math"
 	"sort"
+	"strconv"
 	"strings"
 )
 
@@ -30,6 +32,12 @@ func (c *Ctx) stringDecoderClass(fn *types.Func) (class, why string) {
 	x := c.NewSX()
 	x.ForceStep = func(f *types.Func) bool { return f.FullName() == "strconv.Unquote" }
 	paths := x.Run(fd)
+	for _, p := range paths {
+		if p.Why != "" {
+			return "", "helper outside the path vocabulary: " + p.Why
+		}
+	}
+	paths = c.view(fd).flagNorm(paths)
 	okRet, errRet := false, false
 	for _, p := range paths {
 		if p.Why != "" {
@@ -41,6 +49,14 @@ func (c *Ctx) stringDecoderClass(fn *types.Func) (class, why string) {
 		if p.End != "return" || len(p.Vals) != 2 {
 			return "", "helper does not return (string, error)"
 		}
+		// a fast path that hands the raw text back undecoded: right exactly when the scan that led here confined every byte to what
+		// a JSON decoder reads as itself (no escape, no quote, no control character, nothing beyond ASCII that would need validating)
+		if _, nilErr := p.Vals[1].(TNil); nilErr && isParamTerm(p.Vals[0], par) {
+			if w := c.verbatimGuard(p, par, jsonSafeByte, "returns the raw text undecoded, which is right only for bytes a JSON decoder reads as themselves,"); w != "" {
+				return "", w
+			}
+			continue
+		}
 		// exactly one decoder application, to `"` + raw + `"`; before it only the filling of a byte buffer made here (stores, copy)
 		var dec *TCall
 		var pre []Step
@@ -48,6 +64,9 @@ func (c *Ctx) stringDecoderClass(fn *types.Func) (class, why string) {
 		for _, st := range p.Effects() {
 			isDec := st.Kind == "call" && st.Call != nil && st.Call.Fun != nil && (st.Call.Fun.FullName() == "encoding/json.Unmarshal" || st.Call.Fun.FullName() == "strconv.Unquote")
 			if dec == nil && !isDec {
+				if st.Kind == "loop" && st.Loop != nil && scanOnly(st.Loop) {
+					continue // the scan that decided against the fast path: no effect
+				}
 				pre = append(pre, st) // the quoted literal being assembled in a local buffer or builder: executed per probe below
 				continue
 			}
@@ -363,7 +382,17 @@ func cascadeRule(c *Ctx, rule string) {
 		for _, cd := range conds {
 			st, _ := stageOf(cd.T)
 			if st == "" {
-				c.Ob(rule, "parseField/decision", posOfNode(cd.Node)).Undecided("decision outside the cascade vocabulary: %s", c.termStr(cd.T))
+				// not the plain sequence of attempts (a keyword switch, a digit-loop fast path): folded over the corpus instead
+				ob := c.Ob(rule, "parseField/decision", posOfNode(cd.Node))
+				n, bad, undec := cascadeFold(c, fd)
+				switch {
+				case bad != "":
+					ob.Fail("parseField does not read literals as the cascade null < int < float < bool does: %s", bad)
+				case undec != "":
+					ob.Undecided("decision outside the cascade vocabulary: %s; folding over the literal corpus: %s", c.termStr(cd.T), undec)
+				default:
+					ob.Ok("folded over %d literals (keywords, integers around the platform limits, prefixes, underscores, signs, float spellings, non-finite names, garbage): every one is read as the reference cascade reads it (exact on the corpus only)", n)
+				}
 				okPath = false
 				break
 			}
@@ -758,6 +787,16 @@ func c16Guard(c *Ctx) {
 						continue
 					}
 					for _, pair := range [][2]Term{{b.X, b.Y}, {b.Y, b.X}} {
+						// len(self.String()) == 2: the text of a container (C16.R3: brackets around the entries) that is two bytes long
+						// is the pair of brackets
+						if k, isK := constInt(pair[1]); isK && k == 2 {
+							if bl, ok := pair[0].(TBuiltin); ok && bl.Name == "len" && len(bl.Args) == 1 {
+								nm, args, isSelf := v.selfCall(bl.Args[0])
+								if isSelf && (nm == "String" || nm == "serialize") && len(args) == 0 && sameTerm(eraseEpochs(p.Vals[0]), eraseEpochs(bl.Args[0])) {
+									short = true
+								}
+							}
+						}
 						lit, isLit := isConstStringTerm(pair[1])
 						nm, args, isSelf := v.selfCall(pair[0])
 						if isLit && (lit == "[]" || lit == "{}") && isSelf && (nm == "String" || nm == "serialize") && len(args) == 0 {
@@ -878,4 +917,152 @@ func sameBuffer(a, b Term) bool {
 		sb = x.X
 	}
 	return key(sa) == key(sb)
+}
+
+// cascadeCorpus: literals that separate the readings of a JSON primitive: keywords and near-keywords, integers around the platform
+// limits, base prefixes, underscores and signs that ParseInt(…, 0, …) accepts or rejects, floats in every spelling ParseFloat knows,
+// non-finite names, and garbage.
+var cascadeCorpus = []string{
+	"null", "nul", "nulll", "Null", "true", "false", "True", "False", "TRUE", "FALSE", "t", "f", "T", "F", "tru", "falsee", "",
+	"0", "-0", "+0", "1", "-1", "+1", "7", "9", "10", "42", "-42", "100", "123456789", "-123456789", "1234567890", "2147483647", "2147483648",
+	"-2147483648", "-2147483649", "4294967295", "4294967296", "999999999999999999", "1000000000000000000", "9223372036854775807",
+	"9223372036854775808", "-9223372036854775808", "-9223372036854775809", "18446744073709551615", "123456789012345678901234567890",
+	"00", "-00", "01", "007", "017", "08", "09", "0x1f", "0X1F", "0x", "0b101", "0B11", "0o17", "0O7", "1_000", "1__0", "_1", "1_", "0_1", "0x_1f",
+	"-+1", "--1", "+-1", "++1", "1-", "1+", "-", "+",
+	"1.0", "-1.5", ".5", "5.", "0.1", "100.0", "1e5", "1E5", "1e+5", "1e-5", "1e0", "-1e300", "1e999", "-1e999", "1.5e3", "0x1p-2", "0X1P4", "1_0.5",
+	"1.2.3", "1e", "1e+", ".", "e", "e5", "1.e5", "0.0", "-0.0", "00.5", "1.0e", "Inf", "-Inf", "+Inf", "inf", "INF", "NaN", "nan", "Infinity", "-infinity", "infinit",
+	"abc", "1a", "a1", "1 ", " 1", "1,2", "1-1", "0x1g", "１", "٣", "1\x00", "\xff",
+}
+
+// cascadeFold: parseField folded over the corpus, literal by literal, against the reference reading — "null" is nil; otherwise the first
+// of ParseInt(s, 0, platform int size) as int, ParseFloat(s, 64) as float64, ParseBool(s) as bool that succeeds; otherwise an error.
+// Used when the cascade is not written as the plain sequence of attempts (a keyword switch, a digit-loop fast path): exact on the
+// corpus, and only there. Returns the number of literals folded, a mismatch, or the reason the body cannot be folded.
+func cascadeFold(c *Ctx, fd *ast.FuncDecl) (n int, bad, undec string) {
+	paths, why := c.runPathsWith(fd, func(x *SX) { delete(x.NoInline, "parseField") })
+	if why != "" {
+		return 0, "", "body outside the path vocabulary: " + why
+	}
+	field := c.Info.Defs[fd.Type.Params.List[0].Names[0]]
+	bits := int(c.intSize()) * 8
+	for _, s := range cascadeCorpus {
+		// reference
+		wantKind, wantI, wantF, wantB := "err", int64(0), 0.0, false
+		if s == "null" {
+			wantKind = "nil"
+		} else if v, err := strconv.ParseInt(s, 0, bits); err == nil {
+			wantKind, wantI = "int", v
+		} else if v, err := strconv.ParseFloat(s, 64); err == nil {
+			wantKind, wantF = "float64", v
+		} else if v, err := strconv.ParseBool(s); err == nil {
+			wantKind, wantB = "bool", v
+		}
+		var got *Path
+		var gotEnv *strEnv
+		for _, p := range paths {
+			loopVals := map[string]sval{}
+			hook := func(t Term) (sval, bool) {
+				if isParamTerm(t, field) {
+					return sval{K: 's', S: s}, true
+				}
+				if lv, ok := t.(TLoop); ok {
+					if v, ok := loopVals[key(lv)]; ok {
+						return v, true
+					}
+				}
+				return sval{}, false
+			}
+			feasible := true
+			for si, st := range p.Steps {
+				switch st.Kind {
+				case "cond":
+					e := &strEnv{hook: hook, ctx: c}
+					v, ok := e.val(st.Cond.T)
+					if e.panic != "" {
+						return n, "literal " + strconv.Quote(s) + ": run-time panic (" + e.panic + ")", ""
+					}
+					if !ok || v.K != 'b' {
+						return n, "", "literal " + strconv.Quote(s) + ": decision cannot be folded: " + c.termStr(st.Cond.T) + " (" + e.fail + ")"
+					}
+					feasible = v.B == st.Cond.Truth
+				case "loop":
+					var ex loopExit
+					fin, why := c.foldLoopExit(st.Loop, hook, 64, nil, &ex)
+					if why == "index out of range" || why == "slice bounds out of range" {
+						return n, "literal " + strconv.Quote(s) + ": run-time panic (" + why + ")", ""
+					}
+					if why != "" {
+						return n, "", "literal " + strconv.Quote(s) + ": loop cannot be folded: " + why
+					}
+					for o, v := range fin {
+						loopVals[key(TLoop{o, st.Loop.ID})] = v
+					}
+					if inLoopExitPrefix(p, si) != ex.Idx {
+						feasible = false
+					}
+				default:
+					return n, "", "parseField has an effect (" + st.Kind + ")"
+				}
+				if !feasible {
+					break
+				}
+			}
+			if !feasible {
+				continue
+			}
+			if got != nil {
+				return n, "", "literal " + strconv.Quote(s) + ": two feasible paths"
+			}
+			got, gotEnv = p, &strEnv{hook: hook, ctx: c}
+		}
+		if got == nil {
+			return n, "", "literal " + strconv.Quote(s) + ": no feasible path"
+		}
+		if got.End == "panic" {
+			return n, "literal " + strconv.Quote(s) + " makes parseField panic", ""
+		}
+		if got.End != "return" || len(got.Vals) != 2 {
+			return n, "", "parseField does not return (value, error)"
+		}
+		ev, ok := gotEnv.val(got.Vals[1])
+		if !ok || ev.K != 'e' {
+			return n, "", "literal " + strconv.Quote(s) + ": the error result cannot be folded: " + c.termStr(got.Vals[1])
+		}
+		gotKind := "err"
+		var gv sval
+		if ev.B {
+			if _, isNil := got.Vals[0].(TNil); isNil {
+				gotKind = "nil"
+			} else {
+				v, ok := gotEnv.val(got.Vals[0])
+				if !ok {
+					return n, "", "literal " + strconv.Quote(s) + ": the value cannot be folded: " + c.termStr(got.Vals[0]) + " (" + gotEnv.fail + ")"
+				}
+				gv = v
+				tt := c.termType(got.Vals[0])
+				if tt == nil {
+					return n, "", "literal " + strconv.Quote(s) + ": the Go type of the value is not evident: " + c.termStr(got.Vals[0])
+				}
+				gotKind = tt.String()
+			}
+		} else if _, isNil := got.Vals[0].(TNil); !isNil {
+			return n, "literal " + strconv.Quote(s) + ": an error is returned together with a value", ""
+		}
+		same := gotKind == wantKind
+		if same {
+			switch wantKind {
+			case "int":
+				same = gv.K == 'i' && gv.I == wantI
+			case "float64":
+				same = gv.K == 'f' && (math.Float64bits(gv.F) == math.Float64bits(wantF))
+			case "bool":
+				same = gv.K == 'b' && gv.B == wantB
+			}
+		}
+		if !same {
+			return n, "literal " + strconv.Quote(s) + " is read as " + gotKind + ", the reference cascade (null, int of the platform size, float64, bool, error) reads it as " + wantKind, ""
+		}
+		n++
+	}
+	return n, "", ""
 }
